@@ -11,10 +11,6 @@ open Skc Skc.Np
 variable {α : Type} [Field α] [LinearOrder α] [IsStrictOrderedRing α] [MathFns α]
 variable {m n : Nat} [NeZero m] [NeZero n]
 
-theorem sgn_eq_neg_one (x : Obj) : (decide ((x.sgn : α) = -1)) = decide (x = .min) := by
-  have h1 : (1 : α) ≠ -1 := one_ne_neg_one
-  cases x <;> simp [Obj.sgn, h1]
-
 theorem tie_fmf (A : Mat m n α) (o : Vec n Obj) (w : Vec n α) :
     (Gen.fmf ⟨A⟩ ⟨fun j => (o j).sgn⟩ ⟨w⟩).v = Agg.fmfCode A o w := by
   funext i
